@@ -385,6 +385,14 @@ func (c *Client) beginCommand(name string, cmd command) *commandEncoder {
 	c.mutex.Lock()
 	c.cmdTag++
 	tag := fmt.Sprintf("T%v", c.cmdTag)
+	// Initialize the command before it becomes visible to the goroutines
+	// completing pending commands
+	baseCmd := cmd.base()
+	*baseCmd = Command{
+		tag:  tag,
+		done: make(chan error, 1),
+	}
+	verifPoint("begin.inited", tag)
 	c.pendingCmds = append(c.pendingCmds, cmd)
 	quotedUTF8 := c.caps.Has(imap.CapIMAP4rev2) || c.enabled.Has(imap.CapUTF8Accept)
 	literalMinus := c.caps.Has(imap.CapLiteralMinus)
@@ -402,12 +410,6 @@ func (c *Client) beginCommand(name string, cmd command) *commandEncoder {
 		return c.registerContReq(cmd)
 	}
 
-	baseCmd := cmd.base()
-	*baseCmd = Command{
-		tag:  tag,
-		done: make(chan error, 1),
-	}
-	verifPoint("begin.inited", tag)
 	enc := &commandEncoder{
 		Encoder: wireEnc,
 		client:  c,
